@@ -321,7 +321,10 @@ func (rr *RunningBucketResults) mergeRunningStats(runningStats *[]runningStats, 
 					batchErr.AddError("RunningBucketResults.mergeRunningStats:Latest", err)
 				}
 				if (*runningStats)[latestTsIdx].rawVal.Dtype != sutils.SS_INVALID {
-					if (*runningStats)[latestTsIdx].rawVal.CVal.(uint64) == toJoinRunningStats[latestTsIdx].rawVal.CVal.(uint64) {
+					// either side may carry no timestamp when the field had no value in its records
+					currTs, currOk := (*runningStats)[latestTsIdx].rawVal.CVal.(uint64)
+					joinTs, joinOk := toJoinRunningStats[latestTsIdx].rawVal.CVal.(uint64)
+					if currOk && joinOk && currTs == joinTs {
 						(*runningStats)[latestIdx].rawVal = toJoinRunningStats[latestIdx].rawVal
 					}
 				}
@@ -336,7 +339,10 @@ func (rr *RunningBucketResults) mergeRunningStats(runningStats *[]runningStats, 
 					batchErr.AddError("RunningBucketResults.mergeRunningStats:Latest", err)
 				}
 				if (*runningStats)[earliestTsIdx].rawVal.Dtype != sutils.SS_INVALID {
-					if (*runningStats)[earliestTsIdx].rawVal.CVal.(uint64) == toJoinRunningStats[earliestTsIdx].rawVal.CVal.(uint64) {
+					// either side may carry no timestamp when the field had no value in its records
+					currTs, currOk := (*runningStats)[earliestTsIdx].rawVal.CVal.(uint64)
+					joinTs, joinOk := toJoinRunningStats[earliestTsIdx].rawVal.CVal.(uint64)
+					if currOk && joinOk && currTs == joinTs {
 						(*runningStats)[earliestIdx].rawVal = toJoinRunningStats[earliestIdx].rawVal
 					}
 				}
